@@ -290,6 +290,25 @@ def caches(R, P, fns):
                 R.check(not wrong, "POLICY", "%s:destructors-forwarded-in-place" % cn, where(cf, e), "key / value destructors (and hash / equality) are forwarded to the parameters of the same name",
                         "%s forwards its parameters to aws_linked_hash_table_init in the wrong positions (%s): keys are destroyed with the value destructor and values with the key destructor" % (cn, ", ".join(wrong)))
         R.require(n_c >= 3, "only %d cache constructors calling aws_linked_hash_table_init found" % n_c)
+    # the limit a cache enforces is the one its creator asked for: each constructor stores its own max_items parameter
+    n_m = 0
+    for cn in ("aws_cache_new_fifo", "aws_cache_new_lifo", "aws_cache_new_lru"):
+        cf = P.fn(cn)
+        if cf is None:
+            continue
+        pn = [p_["n"] for p_ in cf.params if p_["n"] == "max_items" or "max" in p_["n"]]
+        for e in cf.field_accesses(rec="aws_cache", field="max_items", modes=("w",)):
+            n_m += 1
+            a_ = None
+            for b_ in cf.blocks.values():
+                for el in b_.elems:
+                    for x in cf.walk(el):
+                        if x["k"] == "bin" and x["op"] == "=" and cf.d(x["a"][0]) is e.node:
+                            a_ = x
+            v_ = RU.resolve(cf, a_["a"][1]) if a_ is not None else None
+            R.check(v_ is not None and v_["k"] == "var" and v_.get("sc") == "param" and v_["n"] in pn, "EVICT", "%s:limit-is-the-callers" % cn, where(cf, e), "max_items is stored as given",
+                    "%s stores %s as the cache's limit instead of the max_items it was given: the cache holds more (or fewer) entries than configured" % (cn, cf.show(a_["a"][1]) if a_ is not None else None))
+    R.require(n_m >= 3, "only %d stores of max_items in the cache constructors found" % n_m)
     f = fns["s_lru_cache_get_mru_element"]
     bk_ = f.calls(BACK)
     fr_ = [e for e in f.calls(FRONT) if not any(e.node is RU.uncast(f, x) for b_ in f.blocks.values() if b_.cond is not None for x in (f.d(b_.cond) or {}).get("a", []))]
